@@ -154,16 +154,20 @@ fn judge_proto(ctx: &Ctx, proto: Vec<Rec>) {
         ops: vec![Op::Ext("ext".into(), "http://example.com/ext".into()), Op::Cloud(cl)],
         ..Default::default()
     };
-    ctx.describe(|| describe(&p));
     let verdict = documented_valid(&proto, &["ext"]);
+    judge(ctx, &p, verdict, &proto);
+}
+
+fn judge(ctx: &Ctx, p: &Program, verdict: Option<bool>, proto: &[Rec]) {
+    ctx.describe(|| describe(p));
     let dev = Dev::empty();
     let h = dev.handle();
-    let run = run_program(dev, &p, &ExecOpts::default());
+    let run = run_program(dev, p, &ExecOpts::default());
     ctx.ops(run.api_calls);
     if let Some((i, pi)) = &run.panic {
         ctx.violation(
             format!("{P}/panic/{}", pi.class()),
-            format!("writer panicked at {} ({}) during op #{i} of: {}", pi.loc, pi.msg, describe(&p)),
+            format!("writer panicked at {} ({}) during op #{i} of: {}", pi.loc, pi.msg, describe(p)),
         );
         return;
     }
@@ -171,7 +175,7 @@ fn judge_proto(ctx: &Ctx, proto: Vec<Rec>) {
         (Some((_, call, e)), Some(true)) => {
             ctx.violation(
                 format!("{P}/valid-prototype-rejected/{call}/{}", msg_class(e)),
-                format!("{call} returned Err({e}) for a prototype that follows the documented rules: {}", describe(&p)),
+                format!("{call} returned Err({e}) for a prototype that follows the documented rules: {}", describe(p)),
             );
         }
         (Some((_, call, _)), _) => {
@@ -179,14 +183,14 @@ fn judge_proto(ctx: &Ctx, proto: Vec<Rec>) {
         }
         (None, Some(false)) => {
             ctx.violation(
-                format!("{P}/invalid-prototype-accepted/{}", invalid_reason(&proto)),
-                format!("all calls returned Ok for a prototype that breaks the documented rules: {}", describe(&p)),
+                format!("{P}/invalid-prototype-accepted/{}", invalid_reason(proto)),
+                format!("all calls returned Ok for a prototype that breaks the documented rules: {}", describe(p)),
             );
         }
         (None, _) => {
             // T3: everything succeeded => must read back
             let w = Written { bytes: h.snapshot(), run };
-            if read_and_compare(ctx, &p, &w, P, None).is_some() {
+            if read_and_compare(ctx, p, &w, P, None).is_some() {
                 ctx.nontrivial();
                 ctx.count("accepted:roundtrip-ok");
                 ctx.observe(&w.bytes);
@@ -278,6 +282,37 @@ pub fn protos_groups(ctx: &Ctx) {
         proto.push(rec(NAMES[n], if n < 6 { F32 } else { Ty::Int { min: 0, max: 255 } }));
     }
     judge_proto(ctx, proto);
+}
+
+/// the documented rule for extension namespace and attribute names, as a predicate of its own
+pub fn ext_name_ok(s: &str) -> bool {
+    !s.is_empty()
+        && !s.to_lowercase().starts_with("xml")
+        && s.chars().all(|c| c.is_ascii_alphanumeric() || c == '_' || c == '-')
+        && !s.starts_with(|c: char| c.is_ascii_digit() || c == '-')
+}
+
+/// (iv-b) extension names: 30 candidates (the reserved word itself in every case, its prefixes and
+/// extensions, every character class at the first / a later / the last position, empty, long) as
+/// namespace prefix and as attribute name
+pub fn names(ctx: &Ctx) {
+    const CAND: [&str; 30] = [
+        "xml", "XML", "Xml", "xMl", "xmL", "xm", "x", "xmlns", "xmla", "XMLa", "axml", "_xml", "_", "__", "-", "-a", "a-", "a-b", "9", "9a", "a9", "a_b", "a.b", "a b", "", "\u{e4}", "a:b", "a\u{e4}", "A", "Zz09_-",
+    ];
+    let c = CAND[ctx.pick("candidate", CAND.len())];
+    let as_ns = ctx.pick("position", 2) == 0;
+    let long = ctx.pick("long-variant", 2) == 1;
+    let cand = if long { format!("{c}{}", "q".repeat(300)) } else { c.to_string() };
+    let (ns, name) = if as_ns { (cand.clone(), "attr".to_string()) } else { ("ext".to_string(), cand.clone()) };
+    let mut proto = cat::xyz(F32);
+    proto.push(ext_rec(&ns, &name, Ty::Int { min: 0, max: 31 }));
+    let mut cl = cloud(proto.clone(), 2, 5);
+    cl.cap = Some(1);
+    let p = Program { guid: "g".into(), ops: vec![Op::ExtTry(ns.clone(), "http://example.com/ext".into()), Op::Cloud(cl)], ..Default::default() };
+    // the registration of a malformed prefix must fail, so that the prefix is not registered
+    let registered: Vec<&str> = if ext_name_ok(&ns) { vec![ns.as_str()] } else { vec![] };
+    let verdict = documented_valid(&proto, &registered);
+    judge(ctx, &p, verdict, &proto);
 }
 
 /// (v) very wide prototypes: XYZ + k extension records of one kind, k around the sizes where a
